@@ -1,1 +1,5 @@
 import XPathV.Theorems.C12
+#print axioms XPathV.Theorems.C12.evaluate_iter_eq_select
+#print axioms XPathV.Theorems.C12.count_eq_length
+#print axioms XPathV.Theorems.C12.reverse_eq_reverse
+#print axioms XPathV.Theorems.C12.child_from_context
